@@ -61,7 +61,7 @@ Qed.
 (* instructions that report nothing but End *)
 Definition quiet (j : instr) : bool :=
   match j with
-  | IDec _ | ISendErr _ _ _ | IConnClose _ | IDelete _ | IFailGet _ _ | IEntomb _ _ => true
+  | IDec _ | ICheck _ | ISendErr _ _ _ | IConnClose _ | IDelete _ | IFailGet _ _ | IEntomb _ _ => true
   | ICb _ x => cb_is_end x
   | _ => false
   end.
@@ -69,7 +69,7 @@ Definition quiet (j : instr) : bool :=
 (* instructions after which (in program order) only quiet ones follow *)
 Definition opener (j : instr) : bool :=
   match j with
-  | IDec _ | ISendErr _ _ _ | IConnClose _ => false
+  | IDec _ | ICheck _ | ISendErr _ _ _ | IConnClose _ => false
   | ICb _ x => cb_is_end x
   | _ => true
   end.
@@ -131,7 +131,7 @@ Proof.
 Qed.
 
 Lemma exec_shape : forall cf st i room st1 pushed, exec cf st i room = (st1, pushed) -> instr_good i = true ->
-  shape pushed = true /\ (opener i = false -> pushed = []).
+  shape pushed = true /\ (opener i = false -> forall j, In j pushed -> exists k, j = ICheck k).
 Proof.
   intros cf st i room st1 pushed H Hg. destruct i; cbn [exec] in H; cbn [opener].
   - split; [|discriminate]. destruct (e_start e =? 0); inversion H; subst; [reflexivity|].
@@ -144,10 +144,11 @@ Proof.
   - split; [|discriminate]. unfold timer_new in H. cbn [fst snd] in H. inversion H. reflexivity.
   - split; [|discriminate]. unfold timer_new in H. cbn [fst snd] in H. inversion H.
     destruct (e_mode e <? 0); [reflexivity|]. cbn [shape instr_good opener cb_is_end forallb quiet andb]. rewrite rcv_good_req. reflexivity.
-  - inversion H. split; [reflexivity|intros _; reflexivity].
-  - inversion H. split; [reflexivity|intros _; reflexivity].
-  - destruct ((c_state (get_conn st k) =? c_connectionClosed) || negb room); inversion H; split; try reflexivity; intros _; reflexivity.
-  - destruct (c_state (get_conn st k) =? c_connectionActive); inversion H; split; try reflexivity; intros _; reflexivity.
+  - inversion H. split; [reflexivity|intros _ j []].
+  - inversion H. split; [reflexivity|intros _ j [<-|[]]; eexists; reflexivity].
+  - match type of H with (if ?b then _ else _) = _ => destruct b end; inversion H; split; try reflexivity; intros _ j [].
+  - destruct ((c_state (get_conn st k) =? c_connectionClosed) || negb room); inversion H; split; try reflexivity; intros _ j [].
+  - destruct (c_state (get_conn st k) =? c_connectionActive); inversion H; split; try reflexivity; intros _ j [].
   - split; [|discriminate]. destruct (frameTypeFor (f_mt f)); [|inversion H; reflexivity].
     match type of H with context [items_get ?a ?b ?cc] => destruct (items_get a b cc) as [st' g] end. inversion H. reflexivity.
   - split; [|discriminate]. destruct g as [[it stopped]|]; [|inversion H; reflexivity].
@@ -194,15 +195,16 @@ Proof.
     intros th' code Hin. apply set_thread_in in Hin. destruct Hin as [[-> ->]|[_ Hin]].
     + destruct (opener i) eqn:Eo.
       * rewrite (shape_app_quiet _ _ (Hq eq_refl)). exact Hp.
-      * rewrite (Hnil eq_refl). exact HR.
+      * rewrite <- HR. clear -Hnil. specialize (Hnil eq_refl). induction pushed as [|j r IH]; [reflexivity|].
+        destruct (Hnil j (or_introl eq_refl)) as [kk ->]. cbn. apply IH. intros j0 Hj0. apply Hnil. right. exact Hj0.
     + rewrite (exec_threads _ _ _ _ _ _ E) in Hin. eapply HS. exact Hin.
   - destruct (lookup Z.eqb tm (timers st)) as [x|]; [|discriminate].
     destruct (tm_armed x && match lookup tid_eqb (TT tm) (threads st) with None => true | Some _ => false end); [|discriminate].
     inversion H. subst. intros th code Hin. apply set_thread_in in Hin. destruct Hin as [[-> ->]|[_ Hin]]; [reflexivity|].
     eapply HS. exact Hin.
   - destruct (mem_key t (gcs st)); [|discriminate]. inversion H. subst.
-    destruct (items_delete (set_gcs st (remove_one t (gcs st))) t) as [st' g] eqn:E. cbn [fst].
-    apply items_delete_spec in E. destruct E as (_&_&A&_). intros th code Hin. rewrite A in Hin. eapply HS. exact Hin.
+    destruct (items_delete_tomb_spec (set_gcs st (remove_one t (gcs st))) t) as (_&_&A&_).
+    intros th code Hin. rewrite A in Hin. eapply HS. exact Hin.
   - destruct (c_state (get_conn st k) =? c_connectionActive); [|discriminate]. inversion H. subst. exact HS.
   - inversion H. subst. exact HS.
   - match type of H with (if ?b then _ else _) = _ => destruct b end; [|discriminate]. inversion H. subst. exact HS.
@@ -243,6 +245,7 @@ Proof.
     + left. apply Hself. exact Hin.
   - left. apply Hsame. inversion H. reflexivity.
   - left. apply Hsame. inversion H. reflexivity.
+  - left. apply Hsame. match type of H with (if ?b then _ else _) = _ => destruct b end; inversion H; reflexivity.
   - left. apply Hsame. destruct ((c_state (get_conn st k) =? c_connectionClosed) || negb room); inversion H; reflexivity.
   - left. apply Hsame. destruct (c_state (get_conn st k) =? c_connectionActive); inversion H; reflexivity.
   - left. apply Hsame. destruct (frameTypeFor (f_mt f)); [|inversion H; reflexivity].
@@ -310,7 +313,8 @@ Proof.
   - left. unfold timer_new in H. cbn [fst snd] in H. inversion H; subst. destruct Hj as [<-|[]]. exact Hr.
   - left. unfold timer_new in H. cbn [fst snd] in H. inversion H; subst; clear H. in_cases Hj; cbn in Hr; try discriminate; exact Hr.
   - inversion H; subst. contradiction.
-  - inversion H; subst. contradiction.
+  - inversion H; subst. destruct Hj as [<-|[]]. discriminate.
+  - match type of H with (if ?b then _ else _) = _ => destruct b end; inversion H; subst; contradiction.
   - destruct ((c_state (get_conn st k) =? c_connectionClosed) || negb room); inversion H; subst; contradiction.
   - destruct (c_state (get_conn st k) =? c_connectionActive); inversion H; subst; contradiction.
   - (* INcGet *)
@@ -467,6 +471,7 @@ Proof.
   - unfold timer_new in H. cbn [fst snd] in H. inversion H. reflexivity.
   - inversion H. reflexivity.
   - inversion H. reflexivity.
+  - match type of H with (if ?b then _ else _) = _ => destruct b end; inversion H; reflexivity.
   - destruct ((c_state (get_conn st k) =? c_connectionClosed) || negb room); inversion H; reflexivity.
   - destruct (c_state (get_conn st k) =? c_connectionActive); inversion H; reflexivity.
   - destruct (frameTypeFor (f_mt f)); [|inversion H; reflexivity].
@@ -568,7 +573,8 @@ Proof.
         eapply (h_items _ _ HH). eapply (lookup_in key_eqb key_eqb_ok). exact Hl.
     + apply (h_items _ _ HH).
   - (* LGc *)
-    destruct (mem_key t (gcs st)); [|discriminate]. inversion H. subst.
+    destruct (mem_key t (gcs st)) eqn:Emem; [|discriminate]. inversion H. subst.
+    gc_delete HI.
     destruct (items_delete (set_gcs st (remove_one t (gcs st))) t) as [st' g] eqn:E. cbn [fst].
     apply items_delete_spec in E. cbn [set_gcs conns gcs threads cblog sent seen next_call items] in E.
     destruct E as (_&_&A&_&_&_&B&D). unfold held_next. cbn [actor].
